@@ -54,6 +54,10 @@ type handler1 struct {
 	clientID         string
 	topicID          *util.IDSequence
 	idsExhausted     uint32 // non-zero once all TopicIDs were handed out (atomic)
+	lastMqttSend     int64  // time of the last write to the broker, UnixNano (atomic)
+	ownPings         int32  // unanswered MQTT PINGREQs sent by the gateway itself (atomic)
+	sleepDuration    uint16
+	cancelPinger     context.CancelFunc
 	pktBuffer        []snPkts.Packet
 	group            *errgroup.Group
 	transactions     *transactions.TransactionStore
@@ -473,7 +477,12 @@ func (h *handler1) handleMqtt(ctx context.Context, pkt mqPkts.ControlPacket) err
 
 	// Client PING transaction (keepalive).
 	case *mqPkts.PingrespPacket:
-		// Response to sleepPinger pings => do not pass to the sleeping client.
+		// Response to a ping sent by the gateway itself (sleepPinger,
+		// keepBrokerAlive) => do not pass to the client.
+		if atomic.LoadInt32(&h.ownPings) > 0 {
+			atomic.AddInt32(&h.ownPings, -1)
+			return nil
+		}
 		if h.state.Get() != util.StateActive {
 			return nil
 		}
@@ -512,6 +521,9 @@ func (h *handler1) snReceiveLoop(ctx context.Context) error {
 		}
 		err = h.handleMqttSn(ctx, pkt)
 		if err != nil {
+			return err
+		}
+		if err := h.keepBrokerAlive(); err != nil {
 			return err
 		}
 	}
@@ -593,6 +605,7 @@ func (h *handler1) handleConnect(ctx context.Context, snConnect *snPkts1.Connect
 	// See doc/specification-interpretation.md.
 	if state := h.state.Get(); state == util.StateAwake || state == util.StateAsleep {
 		h.setState(util.StateActive)
+		h.stopSleepPinger()
 		if err := h.snSend(snPkts1.NewConnack(snPkts1.RC_ACCEPTED)); err != nil {
 			return err
 		}
@@ -884,9 +897,11 @@ func (h *handler1) handleMqttSn(ctx context.Context, pkt snPkts.Packet) error {
 			}
 			h.pktBuffer = nil
 			err := h.snSend(snPkts1.NewPingresp())
-			// The client goes back to sleep after PINGRESP.
+			// The client goes back to sleep after PINGRESP (for another
+			// sleep duration).
 			// See MQTT-SN specification v. 1.2, chapter 6.14.
 			h.setState(util.StateAsleep)
+			h.restartSleepPinger(ctx)
 			return err
 		} else {
 			mqPkt := mqPkts.NewControlPacket(mqPkts.Pingreq).(*mqPkts.PingreqPacket)
@@ -906,11 +921,8 @@ func (h *handler1) handleMqttSn(ctx context.Context, pkt snPkts.Packet) error {
 			return Shutdown
 		} else {
 			h.log.Debug("Going to sleep for %vs", snPkt.Duration)
-			if h.keepAlive != 0 && snPkt.Duration > h.keepAlive {
-				// We must ensure MQTT gateway considers client alive during sleep period.
-				cancelPinger := h.startSleepPinger(ctx)
-				time.AfterFunc(time.Duration(snPkt.Duration)*time.Second, cancelPinger)
-			}
+			h.sleepDuration = snPkt.Duration
+			h.restartSleepPinger(ctx)
 			if h.state.Get() == util.StateAsleep {
 				// The client prolongs its sleep: keep the queued packets
 				// and do not queue the reply.
@@ -972,6 +984,45 @@ func (h *handler1) handleMqttSn(ctx context.Context, pkt snPkts.Packet) error {
 	}
 }
 
+// keepBrokerAlive is called when the client has just proved to be alive with
+// a packet. The MQTT broker knows nothing about MQTT-SN packets which are not
+// forwarded to it (REGISTER, acknowledgements, wake-up PINGREQ...), so if we
+// have not sent anything to the broker for a substantial part of the keepalive
+// period, we must ping it on the client's behalf. Otherwise the broker would
+// drop a client which fulfils its keepalive duty.
+func (h *handler1) keepBrokerAlive() error {
+	if h.keepAlive == 0 || h.state.Get() == util.StateDisconnected {
+		return nil
+	}
+	idle := time.Duration(time.Now().UnixNano() - atomic.LoadInt64(&h.lastMqttSend))
+	if idle < time.Duration(h.keepAlive)*time.Second/2 {
+		return nil
+	}
+	return h.pingBroker()
+}
+
+func (h *handler1) pingBroker() error {
+	atomic.AddInt32(&h.ownPings, 1)
+	return h.mqttSend(mqPkts.NewControlPacket(mqPkts.Pingreq).(*mqPkts.PingreqPacket))
+}
+
+func (h *handler1) stopSleepPinger() {
+	if h.cancelPinger != nil {
+		h.cancelPinger()
+		h.cancelPinger = nil
+	}
+}
+
+// restartSleepPinger ensures the MQTT broker considers the client alive during
+// one (more) sleep period.
+func (h *handler1) restartSleepPinger(ctx context.Context) {
+	h.stopSleepPinger()
+	if h.keepAlive != 0 && h.sleepDuration > h.keepAlive {
+		h.cancelPinger = h.startSleepPinger(ctx)
+		time.AfterFunc(time.Duration(h.sleepDuration)*time.Second, h.cancelPinger)
+	}
+}
+
 func (h *handler1) startSleepPinger(ctx context.Context) context.CancelFunc {
 	ctx2, cancel := context.WithCancel(ctx)
 	h.group.Go(func() error {
@@ -980,8 +1031,7 @@ func (h *handler1) startSleepPinger(ctx context.Context) context.CancelFunc {
 		for {
 			select {
 			case <-time.After(time.Duration(h.keepAlive) * time.Second):
-				p := mqPkts.NewControlPacket(mqPkts.Pingreq).(*mqPkts.PingreqPacket)
-				if err := h.mqttSend(p); err != nil {
+				if err := h.pingBroker(); err != nil {
 					return err
 				}
 			case <-ctx2.Done():
@@ -1023,5 +1073,6 @@ func (h *handler1) mqttSend(pkt mqPkts.ControlPacket) error {
 	if err != nil {
 		return err
 	}
+	atomic.StoreInt64(&h.lastMqttSend, time.Now().UnixNano())
 	return nil
 }
